@@ -203,7 +203,17 @@ func (c *Cluster) execStep(st Step) {
 						}
 					}
 				}
-			case StepCrash, StepStall:
+			case StepOneWay:
+				// The leader can no longer be heard (its requests are lost) but still hears:
+				// replies already under way, however late, reach it. The deposed-but-unaware shape.
+				st.Node = l.ID
+				st.Nodes = nil
+				for _, n := range c.Nodes {
+					if n != l {
+						st.Nodes = append(st.Nodes, n.ID)
+					}
+				}
+			case StepCrash, StepStall, StepStopStart:
 				st.Node = l.ID
 			}
 			r.probe("fault-aimed-at-leader")
@@ -300,6 +310,30 @@ func (c *Cluster) execStep(st Step) {
 			for i := int64(0); i < st.A; i++ {
 				c.submit(0, l.Inc, raft.Replicated, int64(c.Cfg.OpTimeoutMs))
 			}
+		}
+	case StepStopStart:
+		// Graceful Stop, pause, then Restart (or, B=1, Start) on the SAME object: the other
+		// restart style (the repository's tests re-create the node with NewRaft instead).
+		n := c.byID[st.Node]
+		if n != nil && n.Inc != nil && n.Inc.Raft != nil && (n.lifecycle == nil || n.lifecycle.Returned) {
+			inc := n.Inc
+			pause, useStart := st.A, st.B == 1
+			c.Stats.StopStarts++
+			n.lifecycle = c.apiCall(inc, "plan:Stop+Restart", -1, func() {
+				inc.Raft.Stop()
+				if simrt.Dead() {
+					return
+				}
+				c.sleepMs(pause)
+				if simrt.Dead() {
+					return
+				}
+				if useStart {
+					_ = inc.Raft.Start()
+				} else {
+					_ = inc.Raft.Restart()
+				}
+			})
 		}
 	case StepDiskErr:
 		n := c.byID[st.Node]
